@@ -115,6 +115,8 @@ def chunks(tier):
             for a in range(len(PRECIP_LATTICE)):
                 out.append(("P", orient, ksp, a))
     out += [("HR", i) for i in range(len(MUT_SYSTEMS))]
+    out += [("PN", orient) for orient in ORIENTATIONS]
+    out += [("GV", i) for i in range(len(GV_SYSTEMS))]
     return out
 
 
@@ -453,6 +455,19 @@ def run_chunk(chunk, tier):
                 for chain in (("Log",), ("Log", "Lin")):
                     check_mutated_system(res, tags, j, c, chain)
         res.sample(dict(layer="HR", system=list(tags), rewriting="coefficients x2, K**2, in place on the solved system"), limit=1)
+    elif chunk[0] == "PN":
+        _, orient = chunk
+        for (kb, kn), chain in itertools.product(PN_KSP, CHAINS):
+            for init in itertools.product(PN_LATTICE, PN_LATTICE, (0.0, 1.0)):
+                if any(init):
+                    prebuilt_case(res, orient, kb, kn, chain, list(init))
+        res.sample(dict(layer="PN", system="NaCl(s) written as " + orient, ksp_built_then_now=PN_KSP, lattice=PN_LATTICE), limit=1)
+    elif chunk[0] == "GV":
+        tags = GV_SYSTEMS[chunk[1]]
+        nfree = len([n for n in M.species_of(_idx(tags)) if n != "H2O"])
+        for a, b in itertools.permutations(range(nfree), 2):
+            grid_order_case(res, tags, a, b)
+        res.sample(dict(layer="GV", system=list(tags), values=GV_VALUES, written_orders="all ordered pairs of varied substances"), limit=1)
     elif chunk[0] == "P":
         _, orient, ksp, ai = chunk
         es, names = build_precip(orient, ksp)
@@ -512,8 +527,107 @@ def precip_run(res, es, names, init, chain, oname, extra, entry, orient, KSP):
     return True
 
 
+# --------------------------------------------------------------------------------------------- layer PN / GV
+PN_KSP = [(4.0, 1.0), (1.0, 4.0), (4.0, 0.25)]  # (Ksp the solver object was built at, Ksp of the system when it is used)
+PN_LATTICE = [0.0, 1.0, 1.5, 3.0]
+
+
+def prebuilt_case(res, orient, kb, kn, chain, init):
+    """a solver object from get_neqsys is kept while the solubility product of the (same) system is re-assigned; root(...,
+    neqsys=kept) then answers for the system as it stands"""
+    import numpy as np
+
+    es, names = build_precip(orient, kb)
+    run = "precip-root-prebuilt|%s" % "+".join(chain)
+    case = dict(layer="PN", orient=orient, kb=kb, kn=kn, chain=list(chain), init=list(init))
+    res.states += 1
+    res.transitions += 2
+    res.evaluations += 1
+    try:
+        neqsys = es.get_neqsys("chained_conditional", NumSys=_numsys(chain))
+        es.root(dict(zip(names, init)), neqsys=neqsys)  # first use, at the Ksp it was built with
+        es.rxns[0].param = kn if orient == "dissolution" else 1.0 / kn
+        x, sol, sane = es.root(dict(zip(names, init)), neqsys=neqsys)
+        x, success, sane, exc = np.asarray(x, dtype=float), bool(sol["success"]), bool(sane), None
+    except Exception as e:
+        x, success, sane, exc = None, False, False, "EXC %s" % type(e).__name__
+    claim = _claim(success, sane, exc)
+    if claim != "success+sane":
+        res.outcomes["%s:%s" % (run, claim)] += 1
+        return
+    res.nontrivial += 1
+    kinds, mags = judge_precip(init, x, kn)
+    if not kinds:
+        res.outcomes["%s:success+sane:genuine" % run] += 1
+        return
+    res.outcomes["%s:success+sane:NOT-GENUINE(%s)" % (run, "+".join(kinds))] += 1
+    res.violation(_key(run, kinds), "root(init, neqsys=<built when Ksp was %g>) on NaCl(s) written as %s, Ksp now %g, init=%s claims success and a sane result but returns %s: %s (%s)"
+                  % (kb, orient, kn, dict(zip(names, init)), [float("%.6g" % v) for v in x], ", ".join(kinds), ", ".join("%s=%.3g" % kv for kv in sorted(mags.items()))),
+                  case, dict(x=[float(v) for v in x], kinds=kinds, mags=mags), "the state of the system with its current Ksp")
+
+
+GV_SYSTEMS = [("water", "nh4"), ("water", "hac"), ("nh4", "hac")]
+GV_VALUES = ([1e-4, 1e-2], [1e-6, 1e-4, 1e-2])
+
+
+def grid_order_case(res, tags, a, b):
+    """EqSystem.solve with two varied substances written in the order (a, b) — any order, lists of unequal length: the axes
+    of the result follow `varied_keys`, and every grid point is the equilibrium of the initial state it is labelled with"""
+    from collections import OrderedDict
+    import numpy as np
+
+    shifts = (0,) * len(tags)
+    es, names, idx, K = build(tags, shifts)
+    free = [n for n in names if n != "H2O"]
+    ka, kb_ = free[a], free[b]
+    base = {n: (H2O if n == "H2O" else 1e-4) for n in names}
+    varied = OrderedDict([(ka, list(GV_VALUES[0])), (kb_, list(GV_VALUES[1]))])
+    case = dict(layer="GV", tags=list(tags), a=a, b=b)
+    what = "%s solve(varied written as %s)" % ("+".join(tags), list(varied))
+    res.states += 1
+    res.transitions += 6
+    res.evaluations += 1
+    try:
+        r = es.solve(dict(base), varied=varied)
+        vk = list(r.varied_keys)
+    except Exception as e:
+        res.outcomes["grid-order:raises"] += 1
+        res.violation("C08|solve|varied-grid|two-keys|raises", "%s raised %s: %s" % (what, type(e).__name__, e), case, "EXC %s" % type(e).__name__, "a grid of results")
+        return
+    if sorted(vk) != sorted(varied) or tuple(r.conc.shape[:-1]) != tuple(len(varied[k]) for k in vk):
+        res.violation("C08|solve|varied-grid|two-keys|axes", "%s: varied_keys %s with result shape %s" % (what, vk, r.conc.shape), case, [vk, list(r.conc.shape)], "one axis per varied key, of its length")
+        return
+    for ind in itertools.product(*[range(len(varied[k])) for k in vk]):
+        init = dict(base)
+        for k, i in zip(vk, ind):
+            init[k] = varied[k][i]
+        init = [init[n] for n in names]
+        res.evaluations += 1
+        if not np.allclose(r.all_inits[ind], init, rtol=1e-14, atol=0):
+            res.outcomes["grid-order:point-MISPLACED"] += 1
+            res.violation("C08|solve|varied-grid|initial-state-misplaced", "%s: grid point %s (axes %s) holds initial state %s, labelled %s" % (what, list(ind), vk, list(r.all_inits[ind]), init),
+                          case, [float(v) for v in r.all_inits[ind]], init)
+            return
+        if bool(r.success[ind]) and bool(r.sane[ind]):
+            res.nontrivial += 1
+            kinds, mags = judge(names, idx, K, init, r.conc[ind])
+            _record(res, "solve-grid2|Log+Lin|rp=0", "%s point %s" % (what, list(ind)), dict(case, ind=list(ind)), "success+sane", kinds, mags, r.conc[ind])
+        else:
+            res.outcomes["grid-order:not-claimed"] += 1
+
+
 # --------------------------------------------------------------------------------------------- replay
 def replay(case):
+    if case.get("layer") in ("PN", "GV"):
+        res = Result()
+        if case["layer"] == "PN":
+            prebuilt_case(res, case["orient"], case["kb"], case["kn"], tuple(case["chain"]), case["init"])
+        else:
+            grid_order_case(res, tuple(case["tags"]), case["a"], case["b"])
+        if res.violations:
+            v = res.violations[0]
+            return dict(key=v["key"], what=v["what"], observed=v["observed"], expected=v["expected"])
+        return None
     res = Result()
     if case.get("layer") == "live":
         c = case["chunk"]
